@@ -376,7 +376,7 @@ theorem scope_track_after_close_returns_nil {s : Scope.St} (h : Scope.Reach s) (
 
 /-- … as a statement about the step itself: on a closed scope `Track` yields `trackNil` and leaves `sc.subs` alone. -/
 theorem scope_track_on_closed {s s' : Scope.St} (i : Scope.Sub) (hc : s.closed = true)
-    (hs : Scope.step s (.track i) = some s') : s'.tr = s.tr ++ [.trackNil i] ∧ s'.subs = s.subs := by
+    (hs : Scope.step false s (.track i) = some s') : s'.tr = s.tr ++ [.trackNil i] ∧ s'.subs = s.subs := by
   simp only [Scope.step] at hs
   split at hs
   · simp only [hc, Option.some.injEq] at hs
@@ -397,14 +397,36 @@ theorem scope_mutex_and_final_state {s : Scope.St} (h : Scope.Reach s) :
   have h1 := hi.mu; have h2 := hi.run; have h4 := hi.done_; have h7 := hi.empty; have h11 := hi.t_ret
   refine ⟨?_, ?_, ?_⟩ <;> grind
 
+/-- once ANY `Close` call has returned, every tracked subscription has been unsubscribed — also with several overlapping
+    Close calls: the second one waits on `sc.mu` until the first has unsubscribed everything (Close is atomic with respect to
+    other Closes).  (Membership form of `scope_close_unsubscribes_all`.) -/
+theorem close_returned_implies_all_unsubscribed {s : Scope.St} (h : Scope.Reach s) (k : Scope.Cid)
+    (hret : Scope.Ev.closeRet k ∈ s.tr) : ∀ i, Scope.Ev.trackOk i ∈ s.tr → Scope.Ev.unsub i ∈ s.tr :=
+  fun i htr => (Aqv.Feed.sub2_mem ((Scope.inv_reach h).all_before i k hret htr)).1
+
+/-- WITNESS (seeded shape C19-9): if Close marks the scope closed and releases `sc.mu` BEFORE unsubscribing (`step true`), a
+    second overlapping Close hits `if sc.closed { return }` and returns while the tracked subscription is still subscribed. -/
+theorem scope_close_early_unlock_witness :
+    ∃ s, Scope.run true Scope.init [.track 1, .closeCall 10, .closeEnter 10, .closeCall 11, .closeEnter 11] = some s ∧
+      Scope.Ev.closeRet 11 ∈ s.tr ∧ Scope.Ev.trackOk 1 ∈ s.tr ∧ Scope.Ev.unsub 1 ∉ s.tr ∧ s.unsubbed 1 = false := by
+  refine ⟨(Scope.run true Scope.init [.track 1, .closeCall 10, .closeEnter 10, .closeCall 11, .closeEnter 11]).getD Scope.init,
+    by rfl, ?_⟩
+  have htr : ((Scope.run true Scope.init [.track 1, .closeCall 10, .closeEnter 10, .closeCall 11, .closeEnter 11]).getD
+      Scope.init).tr = [.trackOk 1, .closeCall 10, .closeCall 11, .closeRet 11] := by rfl
+  rw [htr]
+  exact ⟨by decide, by decide, by decide, by rfl⟩
+
+-- … while in the code as written the second Close cannot even enter while the first is running (it waits on sc.mu)
+example : Scope.run false Scope.init [.track 1, .closeCall 10, .closeEnter 10, .closeCall 11, .closeEnter 11] = none := by rfl
+
 -- non-vacuity: two subscriptions tracked, one unsubscribed through its wrapper while a Close is waiting, Close visits the
 -- map in the "other" order, a second Close and a late Track follow, then Count
 def scopeDemo : List Scope.Act :=
   [.track 1, .track 2, .count, .wrapCall 2, .closeCall 10, .wrapInner 2, .closeEnter 10, .closeStep 10 2, .closeStep 10 1,
    .closeExit 10, .wrapDelete 2, .closeCall 11, .closeEnter 11, .track 3, .count]
-def scopeDemoState : Scope.St := (Scope.run Scope.init scopeDemo).getD Scope.init
+def scopeDemoState : Scope.St := (Scope.run false Scope.init scopeDemo).getD Scope.init
 theorem scopeDemo_reach : Scope.Reach scopeDemoState :=
-  Scope.reach_run Scope.Reach.init (by unfold scopeDemoState; rfl : Scope.run Scope.init scopeDemo = some scopeDemoState)
+  Scope.reach_run Scope.Reach.init (by unfold scopeDemoState; rfl : Scope.run false Scope.init scopeDemo = some scopeDemoState)
 theorem scopeDemo_tr : scopeDemoState.tr =
     [.trackOk 1, .trackOk 2, .count 2, .wrapCall 2, .closeCall 10, .unsub 2, .unsub 2, .unsub 1, .closeRet 10, .wrapRet 2,
      .closeCall 11, .closeRet 11, .trackNil 3, .count 0] := by rfl
